@@ -2,6 +2,11 @@
 """writes the seeded-change table (DESIGN.md section 10.5) from seeded/*/meta.json"""
 import glob, json, os, re
 FIRST_MISSED = {
+    "C04-6A": "the compute/replace/compute obligation replaced the history by one with the same batch sizes; a replacement with the same number of iterations but other sizes per iteration added",
+    "C05-6A": "inconclusive at first (exit 3): the change keys a cache on float(beta), which the symbolic-temperature obligations refuse; a step / replace-pool-in-place / step obligation with grid temperatures and symbolic likelihoods added (B-replaced-pool)",
+    "C17-6A": "no operation handed buffers in with copy=False and reused them after the commit",
+    "C06-6A": "inconclusive (exit 3), not a pass: the vectorised rewrite (cumsum/ceil/diff/repeat with dtype=float) is outside what the symbolic arrays model - np.repeat with symbolic counts needs a fork per count vector",
+    "C03-6A": "inconclusive (exit 3), not a pass: the change adds a fork on equality of symbolic log-likelihoods and the two-iteration tpCN obligations exhaust their wall-clock budget; a plateau variant (all three log-likelihoods the same atom) was tried and also ran out of budget on the unchanged tree, so it is not registered",
     "C03-5A": "the replay of wrapped RWM moves looked at the acceptance factor of the proposal only, not at the point handed to the user's functions in a full step (exit 3)",
     "C07-5B": "not a violation on the repaired head: fix 90a1e27 copies the vectorised likelihood output, the demonstration passes with the change applied",
     "C08-5B": "tempfile.mkstemp / os.fdopen were not modelled in the file-system double (harness error, exit 3)",
